@@ -472,10 +472,12 @@ def ev_cli(case, ctx):
     d = os.environ["VERIF_SCRATCH"]
     n = len(rows)
     names = ComponentSource.names
-    for order_name, order in (("given", list(range(n))), ("reversed", list(range(n))[::-1])):
+    for (order_name, order), ratio in itertools.product((("given", list(range(n))), ("reversed", list(range(n))[::-1])), (None, 1.5, 3.0)):
         if n == 1 and order_name == "reversed":
             continue
-        where = "loc=%s,eps=%g',mask=%d,order=%s" % (loc, eps, mask, order_name)
+        if ratio is not None and (order_name == "reversed" or n < 2):
+            continue
+        where = "loc=%s,eps=%g',mask=%d,order=%s" % (loc, eps, mask, order_name) + ("" if ratio is None else ",ratio=%g" % ratio)
         sig = "|%s,n=%d" % (where, n)
         fin = os.path.join(d, "c19_in.csv")
         fout = os.path.join(d, "c19_out.csv")
@@ -486,9 +488,9 @@ def ev_cli(case, ctx):
         tab = Table([[getattr(templates[i], nm) for i in order] for nm in names], names=names)
         ascii.write(tab, fin, format="csv", overwrite=True)
         ctx.count("cli_runs")
-        desc = "AeReg --eps %r on %s %s" % (eps, where, _describe(rows, ra, dec))
+        desc = "AeReg --eps %r%s on %s %s" % (eps, "" if ratio is None else " --ratio %g" % ratio, where, _describe(rows, ra, dec))
         try:
-            rc = AeReg.main(["--input", fin, "--table", fout, "--eps", repr(eps)])
+            rc = AeReg.main(["--input", fin, "--table", fout, "--eps", repr(eps)] + ([] if ratio is None else ["--ratio", repr(ratio)]))
             if rc != 0 or not os.path.exists(fout_real):
                 ctx.violation("%s: exit code %r, output table %s" % (desc, rc, "present" if os.path.exists(fout_real) else "absent"),
                               "cli_failed" + sig)
@@ -524,6 +526,9 @@ def ev_cli(case, ctx):
             byisl.setdefault(s.island, []).append(s)
         snap_t = {u: {k: x for k, x in v.items() if k in names} for u, v in snap.items()}   # the table columns
         probs, part = _analyse(list(byisl.values()), snap_t)
+        if ratio is not None:
+            # --ratio rescales the shapes (C19's resize clause judges that); the grouping must still follow --eps
+            probs = [(c_, m_) for c_, m_ in probs if c_ != "attr_changed"]
         bad = False
         for cls, msg in probs:
             bad = True
